@@ -41,6 +41,8 @@ def gen_tree(rng: random.Random, depth: int) -> tuple:
     if depth <= 0 or rng.random() < 0.3:
         return ("base", rng.randrange(2))
     c = rng.random()
+    if c < 0.12:
+        return (rng.choice(["agg", "distinct", "ordlimit", "respell"]), gen_tree(rng, depth - 1))
     if c < 0.4:
         return ("wrap", gen_tree(rng, depth - 1))
     if c < 0.75:
@@ -64,6 +66,11 @@ class Namer:
         out = list(range(self.fresh, self.fresh + n))
         self.fresh += n
         return out
+
+
+def is_structural(tr: tuple) -> bool:
+    """only select-wraps / joins / set operations are numbered by the Lean chain model"""
+    return tr[0] in ("base", "wrap", "join", "setop") and all(is_structural(x) for x in tr[1:] if isinstance(x, tuple))
 
 
 def size(tr: tuple) -> int:
@@ -117,6 +124,14 @@ def real(tr: tuple):
         return bs[tr[1]].select("k", "v")
     if k == "wrap":
         return real(tr[1]).select("k", "v")
+    if k == "agg":  # blocks the optimizer cannot merge away: identical copies keep identical bodies
+        return real(tr[1]).groupBy("k").agg(F.sum("v").alias("v")).select("k", "v")
+    if k == "distinct":
+        return real(tr[1]).distinct().select("k", "v")
+    if k == "ordlimit":
+        return real(tr[1]).orderBy(F.col("k").desc_nulls_last(), F.col("v").asc_nulls_first()).limit(3).select("k", "v")
+    if k == "respell":  # mixed-case output names: the text must report the user's spelling
+        return real(tr[1]).withColumnRenamed("v", "Vee").select(F.col("k").alias("Kay"), "Vee").select(F.col("Kay").alias("k"), F.col("Vee").alias("v"))
     L = real(tr[1])
     R = real(tr[2])
     if k == "join":
@@ -200,7 +215,7 @@ def run_texts(df, ordered: bool) -> t.Tuple[t.List[str], t.Dict[str, t.Any]]:
         except Exception as e:  # noqa
             fails.append(f"[{tag}] the engine rejects the text: {type(e).__name__}: {str(e)[:160]}")
             continue
-        if [c.lower() for c in got_cols] != [c.lower() for c in cols]:
+        if got_cols != cols:
             fails.append(f"[{tag}] column names {got_cols} differ from collect()'s {cols}")
         if (got != C) if ordered else (bag(got) != bag(C)):
             fails.append(f"[{tag}] rows differ from collect(): {got[:6]} vs {C[:6]}")
@@ -330,6 +345,8 @@ def lateral_alias(c: dict) -> bool:
             if any(n in cols and cols.index(n) != i for i, n in enumerate(s["names"])):
                 return True
             cols = list(s["names"])
+        elif k == "unpivot":
+            cols = s["ids"] + [s["var"], s["val"]]
         elif k == "replace":
             return True
     return False
@@ -375,7 +392,15 @@ def show_tree(tr: tuple) -> str:
         return f"b{tr[1]}"
     if k == "wrap":
         return f"{show_tree(tr[1])}.select(k,v)"
+    if k in ("agg", "distinct", "ordlimit", "respell"):
+        return f"{show_tree(tr[1])}.{k}()"
     return f"{show_tree(tr[1])}.{tr[3] if k == 'setop' else 'join[' + tr[3] + ']'}({show_tree(tr[2])})"
+
+
+def c11_cols(c: dict) -> t.List[str]:
+    import c11
+
+    return c11.current_cols(c)
 
 
 def run(ctx: Ctx) -> None:
@@ -395,10 +420,16 @@ def run(ctx: Ctx) -> None:
     ]
     for _ in range(300 if ctx.thorough else 40):
         trees.append(gen_tree(ctx.rng, ctx.rng.choice([1, 2, 2, 3])))
+    trees += [
+        ("join", ("agg", ("base", 0)), ("agg", ("base", 0)), "inner"),  # two identical aggregated frames
+        ("join", ("ordlimit", ("base", 1)), ("ordlimit", ("base", 1)), "left"),
+        ("setop", ("distinct", ("base", 0)), ("distinct", ("base", 0)), "union"),
+        ("respell", ("base", 0)),
+    ]
     lean_cases = []
     for i, tr in enumerate(trees):
         nm = Namer()
-        p, _ = to_prog(tr, nm)
+        p, _ = to_prog(tr if is_structural(tr) else ("base", 0), nm)
         lean_cases.append({"case": i, "prog": p})
     outs = vlib.run_driver("C03", lean_cases)
     impls = vlib.parallel_map(run_struct, trees)
@@ -415,7 +446,7 @@ def run(ctx: Ctx) -> None:
         if im.get("uncollectable"):
             uncollectable += 1
             continue
-        if im["chain"] is None or mc != im["chain"]:
+        if is_structural(tr) and (im["chain"] is None or mc != im["chain"]):
             struct_mismatch.append({"program": show_tree(tr), "tree": tr, "model": mc, "implementation": im["chain"]})
         if im["fails"]:
             kf = classify_tree(tr, im["fails"], known)
@@ -440,6 +471,11 @@ def run(ctx: Ctx) -> None:
         L = ctx.rng.randint(1, 6)
         c = c01.gen_program(ctx.rng, [ctx.rng.choice(c01.KINDS) for _ in range(L)])
         if c and c01.valid(c) and not c01.has_risky_limit(c):
+            if ctx.rng.random() < 0.3:
+                # end on a mixed-case spelling: the rendered text must report the user's spelling like collect()
+                cols = c11_cols(c)
+                if "MixedCase" not in cols:
+                    c["steps"].append({"k": "withColumnRenamed", "a": ctx.rng.choice(cols), "b": "MixedCase"})
             chains.append(c)
     cres = vlib.parallel_map(run_chain, chains)
     for c, r in zip(chains, cres):
